@@ -439,7 +439,7 @@ impl Check for C04 {
     }
     fn scenarios(&self, tier: Tier) -> u64 {
         match tier {
-            Tier::Quick => 300,
+            Tier::Quick => 500,
             Tier::Thorough => 15000,
         }
     }
@@ -915,7 +915,7 @@ impl Check for C15 {
     }
     fn scenarios(&self, tier: Tier) -> u64 {
         match tier {
-            Tier::Quick => 300,
+            Tier::Quick => 500,
             Tier::Thorough => 15000,
         }
     }
